@@ -519,6 +519,71 @@ def replay_comment(info):
     return None, {}
 
 
+def o7_parenthesis_line_comment(ses, rep):
+    """O7: parentheses that are kept with their content on the same line: `( -- c` would swallow the expression and the `)`. On every path
+    of format_expression_internal / format_hanging_expression_ that returns Expression::Parentheses whose span is format_contained_span's
+    result as it is (nothing appended to `(`), some comment test over the span's trivia is FALSE on the path."""
+    from .c07 import mk_variant, lazy_args
+    from . import c02
+    flagged = []
+    for fs in ("default", "full"):
+        funcs = ses.mir("lib", fs)
+        for fname in ("format_expression_internal", "format_hanging_expression_"):
+            f = [g for g in funcs.get(fname, []) if g.kind == "fn"]
+            if len(f) != 1:
+                raise Inconclusive(f"{fname} not found")
+            f = f[0]
+            ex = ses.executor("lib", fs, inline=lambda n, fn: False)
+            ex.max_block_visits = 2
+            node = mk_variant(ex, "Expression", "Parentheses", "paren")
+            span = node.fields[0]
+            args = [RefV(node) if re.fullmatch(r"&(\w+::)*Expression", t.strip()) else a for (p_, t), a in zip(f.params, lazy_args(ex, f))]
+            outs = ex.run(f, args)
+            rep.fn(f)
+            n = 0
+            for pi, o in enumerate(outs):
+                if o.kind != "return":
+                    continue
+                v = deref_val(ex, o.state, o.value)
+                if not (isinstance(v, Agg) and v.variant == "Parentheses"):
+                    continue
+                c = deref_val(ex, o.state, v.fields[0])
+                if not (isinstance(c, Lazy) and c.oid in ex.havoc_calls and ex.havoc_calls[c.oid][0].split("::")[-1] == "format_contained_span"):
+                    continue          # the span was rebuilt (ContainedSpan::new with newline / indent trivia): the multi-line layout
+                n += 1
+                P = c02.Prov(ex, o)
+                tests = [t for t in o.trace if t[0] == "havoc" and isinstance(t[3], Sym) and z3.is_bool(t[3].t)
+                         and t[1].split("::")[-1] in ("any", "contains_comments", "has_trailing_comments", "has_leading_comments", "token_contains_comments", "trivia_contains_comments")
+                         and any(isinstance(span, Lazy) and span.oid in P.of(a_) for a_ in (t[4] if len(t) > 4 else t[2]))]
+                some_false = [t for t in tests if not ses.reachable(list(o.pc) + [t[3].t])]
+                oid = f"paren-line-comment/{fs}/{fname}/path{pi}/inline-only-without-a-comment-after-the-bracket"
+                r, m = ses.obligation(oid, list(o.pc), z3.BoolVal(not some_false), "content stays on the line of `(` only if a comment test over the span said no")
+                if r == "sat":
+                    flagged.append((oid, f"{fname} keeps parentheses with their content on the same line although a comment may follow `(`: a line comment there "
+                                         "swallows the expression and the `)`", "paren-comment", {"fn": fname}))
+            if n == 0:
+                raise Inconclusive(f"{fname}: no path returns parentheses laid out on one line")
+    return flagged
+
+
+def replay_paren_comment(info):
+    binp = common.native_build("default")
+    for src in ("local x = ( -- c\n y)\n", "local x = ( -- c\n a + b) * d\n", "local v = -( -- c\n -x)\n", "f(( -- c\n a or b) and c)\n", "local s = ( -- c\n 'str'):rep(2)\n",
+                "local x = ( --[[ block ]] y) * 2\n", "return ( -- c\n a + b) * 2, 1\n"):
+        for w in (120, 40, 20):
+            rc, out, err = common.run_stylua(binp, src, ["--column-width", str(w)])
+            if rc != 0:
+                continue
+            ok, perr = parses(binp, out, "lua51")
+            try:
+                same = [t for t in luaexpr.tokenize(out) if t[0] != "comment" and t[1] not in "()"] == [t for t in luaexpr.tokenize(src) if t[0] != "comment" and t[1] not in "()"]
+            except luaexpr.LuaSyntaxError:
+                same = False
+            if not ok or not same:
+                return f"--column-width {w}: {src!r} is printed as {out!r} (code swallowed by the comment / does not re-parse)", {"source": src, "args": ["--column-width", str(w)], "output": out}
+    return None, {}
+
+
 def o6_prefix_context(ses, rep):
     """O6: a parenthesised prefix keeps its parentheses on every layout path: format_prefix hands the expression to the expression
     formatters only under ExpressionContext::Prefix (`(function() end)()`, `("x"):rep(2)`, `({}).x` do not parse without them)"""
@@ -555,7 +620,7 @@ def replay_prefix(info):
     return None, {}
 
 
-REPLAYS = {"prefix": replay_prefix, "semicolon": replay_semicolon, "brackets": replay_brackets, "comment": replay_comment, "collapse": replay_collapse}
+REPLAYS = {"paren-comment": replay_paren_comment, "prefix": replay_prefix, "semicolon": replay_semicolon, "brackets": replay_brackets, "comment": replay_comment, "collapse": replay_collapse}
 
 
 def run(ses, rep):
@@ -572,6 +637,7 @@ def run(ses, rep):
     flagged += o4_comment_newline(ses, rep)
     flagged += o5_collapse(ses, rep)
     flagged += o6_prefix_context(ses, rep)
+    flagged += o7_parenthesis_line_comment(ses, rep)
     # O2 through the C05 machinery (reduced)
     o2 = run_o2(ses, rep)
     rep.samples.append({"flagged": [(f[0], f[1]) for f in flagged][:6]})
